@@ -59,11 +59,13 @@ def _value(draw):
 def _case(draw):
     table = draw(progs.tables(min_rows=2, max_rows=8))
     scan = draw(progs.scans(table))
-    prog = draw(progs.programs(table, kinds=("b", "b", "b", "assign", "when", "se", "print", "print"), max_comps=4, depth=2, or_mode=False))
-    if draw(st.booleans()):
-        # a selective decider so that the matched set is usually a proper subset
+    selective = draw(st.sampled_from([True, True, False]))
+    kinds = ("assign", "print", "se", "print", "when") if selective else ("b", "b", "b", "assign", "when", "se", "print", "print")
+    prog = draw(progs.programs(table, kinds=kinds, max_comps=4, depth=2, or_mode=False))
+    if selective:
+        # a selective decider (beside components that rarely decide) so that the matched set is usually a proper subset
         nrec = len(table["records"])
-        ids = draw(st.lists(st.integers(0, nrec), min_size=1, max_size=4, unique=True))
+        ids = draw(st.lists(st.sampled_from(list(range(0, nrec + 1))), min_size=1, max_size=4, unique=True))
         prog["comps"].append(["f", "in", [], [["h", "id"], ["t", "|".join(f"r{i}" for i in ids)]]])
     if draw(st.sampled_from([False, False, True])):
         # print() whose second argument is a function to run after printing
